@@ -435,6 +435,10 @@ impl<CS: CLCiphersuite> ZKPoK<CL03<CS>> {
                 return false;
             }
             let rproof_mi = zkpok.range_proofs_mi.get(idx).expect("index overflow");
+            if rproof_mi.E != proof_mi.commitment.value {
+                println!("Commitment on m{} used in the PoK different from the one used in the Range Proof!", i);
+                return false;
+            }
             let boolean_rproof_mi =
                 rproof_mi.verify::<CS::HashAlg>(&ai, &signer_pk.b, &signer_pk.N, &min_x, &max_x);
             if !boolean_rproof_mi {
@@ -453,6 +457,11 @@ impl<CS: CLCiphersuite> ZKPoK<CL03<CS>> {
         );
         if !boolean_proof_r {
             println!("Verification of the Proof of Knowledge of r. Failed!");
+            return false;
+        }
+
+        if zkpok.range_proof_r.E != zkpok.proof_r.commitment.value {
+            println!("Commitment on r used in the PoK different from the one used in the Range Proof!");
             return false;
         }
 
